@@ -1,5 +1,6 @@
 SPECIFICATION TSpec
 CONSTANTS
   Depth = 0
+  ForeignKinds <- AllForeignKinds
   KeepHist = FALSE
 POSTCONDITION Accepted
